@@ -132,8 +132,10 @@ class Unit:
     def emit_item(self, s, rel, what, block, tline):
         toks = what.split()
         pat = r"(?<!\w)" + r"\s+".join(re.escape(t) for t in toks) + r"(?!\w)"
-        hits = [m for m in re.finditer(pat, s.masked)
-                if s.masked[:m.start()].count("{") == s.masked[:m.start()].count("}")]
+        allhits = [m for m in re.finditer(pat, s.masked)]
+        hits = [m for m in allhits if s.masked[:m.start()].count("{") == s.masked[:m.start()].count("}")]
+        if not hits and len(allhits) == 1:
+            hits = allhits   # a unique nested item (e.g. an associated const inside an impl)
         if len(hits) != 1:
             raise ExtractError("%s: item %r: %d hits" % (rel, what, len(hits)))
         m = hits[0]
